@@ -175,6 +175,9 @@ func (this *Hnsw) Remove(id uuid.UUID) error {
 		for l := vertex.level; l >= 0; l-- {
 			vertex.edgeMutexes[l].RLock()
 			for neighbor, distance := range vertex.edges[l] {
+				if neighbor == vertex || neighbor.isDeleted() {
+					continue
+				}
 				if distance < minDistance {
 					minDistance = distance
 					closestNeighbor = neighbor
@@ -185,6 +188,11 @@ func (this *Hnsw) Remove(id uuid.UUID) error {
 			if closestNeighbor != nil {
 				break
 			}
+		}
+		if closestNeighbor == nil {
+			// No live linked neighbor. Fall back to any remaining vertex
+			// so that a non-empty index always has an entrypoint.
+			closestNeighbor = this.topVertex()
 		}
 		atomic.CompareAndSwapPointer(&this.entrypoint, currEntrypoint, unsafe.Pointer(closestNeighbor))
 	}
@@ -284,6 +292,21 @@ func (this *Hnsw) removeVertex(id uuid.UUID) (*hnswVertex, error) {
 	}
 
 	return nil, ItemNotFoundError
+}
+
+// Returns a stored vertex with the highest level (nil if the index is empty)
+func (this *Hnsw) topVertex() *hnswVertex {
+	var top *hnswVertex
+	for i, shard := range this.vertices {
+		this.verticesMu[i].RLock()
+		for _, vertex := range shard {
+			if top == nil || vertex.level > top.level {
+				top = vertex
+			}
+		}
+		this.verticesMu[i].RUnlock()
+	}
+	return top
 }
 
 func (this *Hnsw) greedyClosestNeighbor(query math.Vector, entrypoint *hnswVertex, minDistance float32, level int) (*hnswVertex, float32) {
